@@ -51,7 +51,10 @@ func RunC01(ctx *core.Ctx) {
 				if r.Intn(3) == 0 {
 					prof.RunLen = 70
 				}
-				if n <= 3 && n > 0 && r.Intn(3) == 0 {
+				if k == 2 {
+					n = 2
+				}
+				if k == 2 || n <= 3 && n > 0 && r.Intn(3) == 0 {
 					prof.LongLists = true
 					prof.SmallDomain = false
 				}
